@@ -418,6 +418,10 @@ def tf_result_facts(E, D0, K):
                                     z3.Or(z3.And(HNode.is_HLeaf(Dn), z3.PrefixOf(rt, HNode.lpath(Dn))),
                                           z3.And(HNode.is_HExt(Dn), z3.PrefixOf(rt, HNode.epath(Dn)), rt != HNode.epath(Dn))))))
         E.assume(mk_bool(HM.hlk(Dn, rt) == HM.hlk(D0, K)))          # the view equation at the empty continuation
+        ks = E.ghost.get("ks")
+        if ks is not None:
+            # ... and at the caller's ghost continuation (the unit proves it for an arbitrary one)
+            E.assume(mk_bool(HM.hlk(Dn, z3.Concat(rt, ks)) == HM.hlk(D0, z3.Concat(K, ks))))
         E.ghost.setdefault("hview_rules", []).append((Dn, rt, D0, K))
         return (n, rem)
     return make
